@@ -338,7 +338,9 @@ def run_check(prop, tier, obligations, *, level_text="", assumptions=(), wall_bu
         )
 
     # ---- output
-    os.makedirs(os.path.join(VERIF, "evidence"), exist_ok=True)
+    EVD = os.environ.get("VERIF_EVIDENCE_DIR") or os.path.join(VERIF, "evidence")
+    RPD = os.environ.get("VERIF_REPLAY_DIR") or os.path.join(VERIF, "replays")
+    os.makedirs(EVD, exist_ok=True)
     lines = []
     for hid, (hit, v) in sorted(known_hits.items()):
         lines.append(f"KNOWN-FINDING: property={prop} {hit['id']}: {hit['what_fails']}")
@@ -347,7 +349,7 @@ def run_check(prop, tier, obligations, *, level_text="", assumptions=(), wall_bu
         body = dict(property=prop, obligation=v["ob"], kind=v["kind"], message=v["message"], job=v["job"],
                     model=v["model"], raw_model=v.get("raw_model"), extra=v.get("extra"), concrete=v.get("concrete"))
         h = hashlib.sha1(json.dumps(body, sort_keys=True, default=str).encode()).hexdigest()[:12]
-        d = os.path.join(VERIF, "replays", prop)
+        d = os.path.join(RPD, prop)
         os.makedirs(d, exist_ok=True)
         p = os.path.join(d, f"{h}.json")
         with open(p, "w") as f:
@@ -407,7 +409,7 @@ def run_check(prop, tier, obligations, *, level_text="", assumptions=(), wall_bu
     )
     if errors:
         ev["coverage"]["errors"] = [e[:2000] for e in errors[:10]]
-    with open(os.path.join(VERIF, "evidence", f"{prop}.json"), "w") as f:
+    with open(os.path.join(EVD, f"{prop}.json"), "w") as f:
         json.dump(ev, f, indent=1, default=str)
 
     for ln in lines:
